@@ -5,6 +5,7 @@ pub mod c01;
 pub mod c02;
 pub mod c03;
 pub mod c04;
+pub mod c05;
 pub mod c06;
 pub mod c07;
 pub mod c08;
@@ -25,6 +26,7 @@ pub fn spec(id: &str) -> Option<PropSpec> {
         "C02" => Some(c02::spec()),
         "C03" => Some(c03::spec()),
         "C04" => Some(c04::spec()),
+        "C05" => Some(c05::spec()),
         "C06" => Some(c06::spec()),
         "C07" => Some(c07::spec()),
         "C08" => Some(c08::spec()),
